@@ -27,6 +27,9 @@ SHAPES = {
     # a directory whose only file is named like the directory (ambiguous
     # with a single-file torrent in a v2-only metafile, not in v1 / hybrid)
     "D1n": [("top",)],
+    # a root whose only entry is a *directory* named like the root
+    "D2rr": [("top", "a"), ("top", "b")],
+    "D1rr": [("top", "a")],
     # a real top-level directory called .pad (the name padding entries use)
     "D3p": [(".pad", "x"), ("a",), (".pad", "y")],
     # names with numbers: raw byte order f10 < f2, "natural" order differs
